@@ -10,7 +10,7 @@ def plan(tier, seed):
     fun = ["api.ParquetFile._column_filter", "api.ParquetFile._columns_from_filters"]
     jobs = [ch("C13", F, h, t, fun) for h in ("h_column_filter_flat", "h_column_filter_and", "h_column_filter_or",
                                                "h_column_filter_or_of_and", "h_column_filter_in",
-                                               "h_column_filter_partition", "h_column_filter_partition_and")]
+                                               "h_column_filter_partition", "h_column_filter_partition_and", "h_drill_partition_filter")]
     for shp in (0, 1, 2, 3):
         j = ch("C13", F, "h_count_row_filter", t, ["api.ParquetFile.count (row_filter branch)",
                                                    "api.ParquetFile.iter_row_groups", "api.ParquetFile._column_filter",
